@@ -4,6 +4,7 @@
 # then applies it to /repo, runs the given checks, and undoes it straight afterwards.
 set -u
 name=$1; wt=$2; shift 2
+R=${VERIF_REPO:-/repo}
 here=$(cd "$(dirname "$0")/.." && pwd)
 out="$here/seeded/$name"
 mkdir -p "$out"
@@ -14,12 +15,13 @@ cp demo.py "$out/demo.py" 2>/dev/null
 cp meta.json "$out/meta.json" 2>/dev/null
 echo "== suite with change"; PYTHONPATH="$wt/src" /venv/bin/python -m pytest -q -p no:cacheprovider --timeout=900 2>&1 | tail -1 | tee "$out/suite.txt"
 echo "== demo with change"; /venv/bin/python demo.py > "$out/demo_with.txt" 2>&1; echo "exit $?" | tee -a "$out/demo_with.txt"
-git stash -q
+# (no `git stash`: the stash is shared by all worktrees of a repository, concurrent runs would swap changes)
+git checkout -q -- src
 echo "== demo without change"; /venv/bin/python demo.py > "$out/demo_without.txt" 2>&1; echo "exit $?" | tee -a "$out/demo_without.txt"
-git stash pop -q
+git apply "$out/patch.diff"
 cd "$here"
-if ! git -C /repo diff --quiet; then echo "/repo is dirty, refusing"; exit 2; fi
-git -C /repo apply "$out/patch.diff" || { echo "patch does not apply to /repo"; exit 2; }
+if ! git -C $R diff --quiet; then echo "/repo is dirty, refusing"; exit 2; fi
+git -C $R apply "$out/patch.diff" || { echo "patch does not apply to /repo"; exit 2; }
 for p in "$@"; do
   echo "== check $p on the changed tree"
   cp "evidence/$p.json" "/tmp/evidence_$p.bak" 2>/dev/null      # evidence of a run on a changed tree is never kept
@@ -29,6 +31,6 @@ for p in "$@"; do
   echo "rc=$rc" >> "$out/check_$p.txt"; tail -4 "$out/check_$p.txt"
   for f in $(grep -o 'replay=[^ ]*' "$out/check_$p.txt" | head -3 | cut -d= -f2); do cp "$f" "$out/" 2>/dev/null; done
 done
-git -C /repo checkout -- .
-git -C /repo status --short | head -3
+git -C $R checkout -- .
+git -C $R status --short | head -3
 /venv/bin/python "$here/harness/translate.py" --all > /dev/null 2>&1     # regenerate model data from the restored tree
